@@ -60,7 +60,8 @@ def violations_of(prop, root):
 
 def run(prop, rep):
     corpus = load_corpus(prop)
-    res = {'applied': 0, 'detected': 0, 'missed': [], 'skipped': [], 'invalid': [], 'details': []}
+    res = {'applied': 0, 'detected': 0, 'missed': [], 'skipped': [], 'invalid': [], 'refactors_silent': 0, 'refactors_alarmed': [],
+           'details': []}
     rep.mutants = res
     if not corpus:
         return
@@ -100,6 +101,17 @@ def run(prop, rep):
                     res['invalid'].append(mu['id'])
                     continue
                 new = {k: o for k, o in got.items() if k not in base}
+                if mu['rule'] is None:
+                    # behaviour-preserving edit: must stay silent
+                    if new:
+                        res['refactors_alarmed'].append(mu['id'])
+                        print(f"  selftest {mu['id']}: FALSE ALARM on a behaviour-preserving edit {sorted(new)[:3]}", file=sys.stderr)
+                    else:
+                        res['refactors_silent'] += 1
+                        print(f"  selftest {mu['id']}: silent (behaviour-preserving edit)", file=sys.stderr)
+                    res['details'].append({'id': mu['id'], 'expected_rule': None, 'fired': sorted({o['rule'] for o in new.values()}),
+                                           'verdict': 'silent' if not new else 'FALSE-ALARM', 'wall_s': round(time.time() - t0, 1)})
+                    continue
                 res['applied'] += 1
                 hit = [o for o in new.values() if o['rule'].startswith(mu['rule'])]
                 entry = {'id': mu['id'], 'expected_rule': mu['rule'], 'fired': sorted({o['rule'] for o in new.values()}),
@@ -121,5 +133,7 @@ def run(prop, rep):
                         open(p, 'w').write(text)
     finally:
         shutil.rmtree(scratch_base, ignore_errors=True)
+    if res['refactors_alarmed']:
+        print(f"SELFTEST-FALSE-ALARM property={prop} edits={','.join(res['refactors_alarmed'])} (behaviour-preserving edits that made a rule fire)")
     if res['missed']:
         print(f"SELFTEST-MISS property={prop} mutants={','.join(res['missed'])} (validation of the analyser; the verdict on /repo is not affected)")
